@@ -17,7 +17,7 @@ def table(rnd):
     t = {}
     for fno, ty, n in ((7, "N", 256), (3, "B", 256), (8, "F", 40), (9, "L", 40), (2, "S", 64), (1, "I", 30), (0, "O", 30), (4, "T", 20), (5, "C", 20),
                        (10, "N", 12), (255, "N", 6), (254, "B", 20), (11, "F", 256), (100, "L", 3)):
-        t[str(fno)] = {"type": ty, "words": [rnd.choice([0, 1, 0xFFFF, 0x8000, 0x7FFF, rnd.getrandbits(16)]) for _ in range(n * EW[ty])]}
+        t[str(fno)] = {"type": ty, "words": [rnd.choice([0, 1, 0xFFFF, 0x8000, 0x7FFF, 0x5555, 0xAAAA, 0x2AAA, 0x1400, rnd.getrandbits(16)]) for _ in range(n * EW[ty])]}
     # floats: finite values only
     for fno in ("8", "11"):
         w = t[fno]["words"]
@@ -137,6 +137,18 @@ def gen(rnd, n):
                 if any(not it["valid"] for _, it in items):
                     items = [x for x in items if not x[1]["valid"]][:1]
                 calls.append({"api": "read", "tags": [s for s, _ in items], "intent": {"items": [it for _, it in items]}})
+        if i % 8 == 3:                                      # every sub-element of one timer and one counter element
+            for ty, fno, subs in (("T", 4, ["PRE", "ACC", "EN", "DN", "TT"]), ("C", 5, ["PRE", "ACC", "CU", "CD", "DN", "OV", "UN", "UA"])):
+                e = rnd.randint(0, 19)
+                items = [("%s%d:%d.%s" % (ty, fno, e, sub), {"pos": 0, "bit": -1, "sub": sub, "count": 1, "valid": 1, "value": {"none": 1},
+                                                               "ftype": ty, "file": fno, "elem": e}) for sub in subs]
+                calls.append({"api": "read", "tags": [a for a, _ in items], "intent": {"items": [it for _, it in items]}})
+        if i % 8 == 5:                                      # one element addressed in several forms within one call
+            e, b = rnd.randint(0, 200), rnd.randint(0, 15)
+            base = {"pos": 0, "bit": -1, "sub": "", "count": 1, "valid": 1, "value": {"none": 1}, "ftype": "N", "file": 7, "elem": e}
+            forms = [("N7:%d/%d" % (e, b), dict(base, bit=b)), ("N7:%d{4}" % e, dict(base, count=4)), ("N7:%d" % e, dict(base)), ("N7:%d{2}" % e, dict(base, count=2))]
+            for order in (forms, forms[::-1], [forms[1], forms[2]]):
+                calls.append({"api": "read", "tags": [a for a, _ in order], "intent": {"items": [it for _, it in order]}})
         if i % 10 == 7:                                     # the request that crosses the wrap of the 16-bit counters
             calls.insert(1, {"api": "advance_sequence", "n": 65535 - rnd.randint(1, 6)})
         calls.append({"api": "close"})
